@@ -708,6 +708,8 @@ func resolvePlannedField(eCtx *executionContext, parentType *Object, source inte
 	defer func() {
 		if r := recover(); r != nil {
 			handleFieldError(r, FieldASTsToNodeASTs(fp.fieldASTs), path, returnType, eCtx)
+			// a failed field contributes null, never the raw resolver value
+			result = nil
 			ok = true
 		}
 	}()
